@@ -497,6 +497,20 @@ func GenEngineScript(r *Rng, o EngineGenOpts, hist map[string]int) []string {
 		inspect()
 		add("close")
 	}
+	if o.Restarts && !o.MergeHeavy && r.Chance(1, 5) {
+		// a Close that cannot flush the active file (several files exist: small limit, a few writes): it must say so
+		cf := genCfg(r, o, hist)
+		cf.io = 0
+		cf.fsize = r.Pick(64, 200, 700)
+		add("dir %s", src)
+		add("open %s", cf)
+		for i := 3 + r.Intn(8); i > 0; i-- {
+			add("put %s %s", genEngKey(r, hist), genEngVal(r, o, cf, hist))
+		}
+		add("closenoflush")
+		hist["close_with_refused_flush"]++
+		return out
+	}
 	if (o.MergeHeavy || (o.Merges && o.Restarts)) && r.Chance(1, 3) {
 		// the database is closed while a Merge is in the middle of its scan
 		cm := genCfg(r, o, hist)
@@ -885,6 +899,9 @@ func init() {
 				for _, l := range sc {
 					if strings.HasPrefix(l, "E bputfail ") {
 						l = "E bput " + strings.TrimPrefix(l, "E bputfail ") // the fault depends on the I/O type
+					}
+					if l == "E closenoflush" {
+						l = "E close"
 					}
 					if l == "E commitfail" {
 						// whether the fault can be injected depends on the I/O type: not an operation of a lock-step comparison
